@@ -375,8 +375,23 @@ class Report:
         self.violations.append((what, witness, sig))
         return 'new'
 
+    def selftest(self, fn, *a, **k):
+        """Run a harness self-test.  Some of them evaluate a conforming vector on the real code: on a tree that violates the
+        property that half may fail for that very reason, so a failure is settled at finish(): with witnesses at hand the
+        self-test is void (recorded), without any it is a machinery failure."""
+        try:
+            return fn(*a, **k)
+        except MachineryError as e:
+            self._selftest_err = e
+            return None
+
     def finish(self):
         ctx = self.ctx
+        err = getattr(self, '_selftest_err', None)
+        if err is not None:
+            if not self.violations and not self.known_hits:
+                raise err
+            self.extra['selftest'] = f'void on a violating tree: {err}'
         os.makedirs(EVID, exist_ok=True)
         rc = 0
         for fid, (n, f, what, witness) in self.known_hits.items():
